@@ -420,15 +420,15 @@ func firstLetterToBox(context *layoutContext, box Box, skipStack tree.ResumeStac
 					letterBox := bo.NewInlineBox(firstLetterStyle, textBox.Element, "first-letter", nil)
 					textBox = bo.NewTextBox(letterStyle, textBox.Element, "first-letter", []rune(firstLetter))
 					letterBox.Children = []Box{textBox}
-					textBox.Children = append([]Box{letterBox}, textBox.Children...)
+					box.Box().Children = append([]Box{letterBox}, box.Box().Children...)
 				} else {
 					letterBox := bo.NewBlockBox(firstLetterStyle, textBox.Element, "first-letter", nil)
 					letterBox.FirstLetterStyle = nil
-					lineBox := bo.NewLineBox(firstLetterStyle, textBox.Element, "first-letter", nil)
+					lineBox := bo.NewLineBox(letterStyle, textBox.Element, "first-letter", nil)
 					letterBox.Children = []Box{&lineBox}
 					textBox = bo.NewTextBox(letterStyle, textBox.Element, "first-letter", []rune(firstLetter))
 					lineBox.Children = []Box{textBox}
-					textBox.Children = append([]Box{letterBox}, textBox.Children...)
+					box.Box().Children = append([]Box{letterBox}, box.Box().Children...)
 				}
 				bo.ProcessTextTransform(textBox)
 				if skipStack != nil && childSkipStack != nil {
